@@ -25,7 +25,7 @@ META = dict(
                  'monitoring cap of 300/600 steps: capped runs have no verdict and are skipped (counted)'],
     min_events={'quick': {'valid_verdicts_checked': 1500, 'logics': 52, 'runs': 6000},
                 'thorough': {'valid_verdicts_checked': 20000, 'logics': 52, 'runs': 60000}},
-    budget=dict(quick=1500, thorough=3000),
+    budget=dict(quick=1500, thorough=7200),
     unit_timeout=dict(quick=900, thorough=3000),
 )
 
